@@ -93,5 +93,49 @@ pub assume_specification<T, E>[ std::result::Result::<T, E>::unwrap_or ](r: Resu
     -> (r: bool) ensures r == (comps(*rel).len() > 0)
 //@@ end
 
+// ---- the foreground shell tool: the working directory given to the child process lies inside the root -------------------------
+pub struct ShellArgs { pub command: String, pub cwd: Option<String>, pub env: Option<EnvMap>, pub max_bytes: Option<usize> }
+pub struct EnvMap { pub filler: u8 }
+pub struct ExitStatus { pub filler: u8 }
+impl ExitStatus { #[verifier::external_body] pub fn code(&self) -> Option<i32> { unimplemented!() } }
+pub struct ChildStream { pub filler: u8 }
+pub struct ChildSlot { pub filler: u8 }
+impl ChildSlot { #[verifier::external_body] pub fn take(&mut self) -> Option<ChildStream> { unimplemented!() } }
+pub struct Child { pub stdout: ChildSlot, pub stderr: ChildSlot }
+impl Child { #[verifier::external_body] pub fn wait(&mut self) -> Result<ExitStatus, std_io::Error> { unimplemented!() } }
+pub mod std_io { use vstd::prelude::*; verus! { pub struct Error { pub filler: u8 } } }
+pub struct Stdio { pub filler: u8 }
+impl Stdio { #[verifier::external_body] pub fn piped() -> Stdio { unimplemented!() } }
+pub struct Command { pub filler: u8 }
+impl Command {
+    #[verifier::external_body] pub fn new(p: &str) -> Command { unimplemented!() }
+    #[verifier::external_body] pub fn args(&mut self, a: &[&str]) { unimplemented!() }
+    #[verifier::external_body] pub fn stdout(&mut self, s: Stdio) { unimplemented!() }
+    #[verifier::external_body] pub fn stderr(&mut self, s: Stdio) { unimplemented!() }
+    #[verifier::external_body] pub fn envs(&mut self, e: &EnvMap) { unimplemented!() }
+    #[verifier::external_body]
+    pub fn current_dir(&mut self, p: PathBuf)
+        requires fs_ok(p),                                                      // [process.current_dir.requires_path_inside_root]
+    { unimplemented!() }
+    #[verifier::external_body] pub fn spawn(&mut self) -> Result<Child, std_io::Error> { unimplemented!() }
+}
+pub struct StreamCapture { pub preview_lines: Vec<String> }
+impl StreamCapture { #[verifier::external_body] pub fn as_json(&self) -> serde_json::Value { unimplemented!() } }
+#[verifier::external_body] pub fn capture_stream(s: Option<ChildStream>, config: &BuiltinToolConfig, max: usize) -> StreamCapture { unimplemented!() }
+#[verifier::external_body] pub fn resolve_path_str(root: &Path, raw: &str) -> (ret: Result<PathBuf, String>)
+    ensures ret matches Ok(p) ==> within(p, *root),
+{ unimplemented!() }
+pub assume_specification<T: std::ops::Deref>[ std::option::Option::<T>::as_deref ](o: &Option<T>) -> (r: Option<&T::Target>);
+
+//@@ fn crates/rip-tools/src/builtins/shell.rs run_command rules=R3,R6o,R9
+//@@ alias std::process::Stdio::piped Stdio::piped
+//@@ alias std::io::Error std_io::Error
+//@@ alias resolve_path resolve_path_str
+//@@ macro tokio::join
+    (stdout_fut, stderr_fut, status_fut)
+//@@ sig
+    requires config.workspace_root == ws_root(),
+//@@ end
+
 } // verus!
 fn main() {}
